@@ -707,6 +707,20 @@ func packagePrepareWalkFn(root string, ignoreRules *ignorefiles.Ruleset) filepat
 			}
 		}
 
+		// A symlink with an absolute target can at best point into the
+		// temporary directory the package was fetched into. It would pass the
+		// checks below, and then dangle as soon as that directory is renamed
+		// to its final name (or the bundle is moved or archived).
+		if info.Mode()&os.ModeSymlink != 0 {
+			linkTarget, err := os.Readlink(absPath)
+			if err != nil {
+				return fmt.Errorf("failed to read symlink %q: %w", relPath, err)
+			}
+			if filepath.IsAbs(linkTarget) {
+				return fmt.Errorf("module package path %q is a symlink with an absolute target", relPath)
+			}
+		}
+
 		// If we get here then we have a file or directory that isn't
 		// covered by the ignore rules, but we still need to make sure it's
 		// valid for inclusion in a source bundle.
